@@ -212,6 +212,14 @@ class SyncedDict(SyncedCollection, MutableMapping):
                 )
             )
 
+    def __iter__(self):
+        self._load()
+        # Iterate over a snapshot of the keys: the data is updated in place
+        # whenever the collection is reloaded, which can happen during the
+        # iteration (for instance, list(x) calls len(x) after iter(x)) and
+        # fails if the resource gained or lost keys in the meantime.
+        return iter(list(self._data))
+
     def keys(self):  # noqa: D102
         self._load()
         return self._data.keys()
